@@ -74,9 +74,28 @@ class ProcGen:
             if what[0] == 'alter':
                 parts += [self.kw('add'), self.name(), 'int']
             return self.join(parts) + ';'
-        if x < 0.35:
+        if x < 0.30:
             return self.render_stmt(self.gen, rng.choice(
                 ['select', 'insert', 'update', 'delete'])) + ';'
+        if x < 0.35:
+            # DO that opens no loop: PostgreSQL's ON CONFLICT ... DO
+            # NOTHING | DO UPDATE, MySQL's DO expr
+            y = rng.random()
+            if y < 0.7:
+                parts = [self.kw('insert'), self.kw('into'), self.name(),
+                         self.kw('values'), '(1, %s)' % rng.choice(
+                             ["'x'", '2', self.name()]),
+                         self.kw('on'), self.kw('conflict'),
+                         '(%s)' % self.name(), self.kw('do')]
+                if y < 0.35:
+                    parts += [self.kw('nothing')]
+                else:
+                    parts += [self.kw('update'), self.kw('set'), self.name(),
+                              '=', rng.choice(['1', "'do'", self.name()])]
+                return self.join(parts) + ';'
+            return self.join([self.kw('do'), rng.choice(
+                ['sleep(1)', '1', "release_lock('a')",
+                 self.name() + ' + 1'])]) + ';'
         if x < 0.42:
             return self.join([self.kw('set'), self.name(), '=',
                               rng.choice(['1', "'end;'", "'begin'",
@@ -218,6 +237,17 @@ class ProcGen:
         rng = self.rng
         what = rng.choice(['function', 'procedure', 'trigger'])
         head = [self.kw(rng.choice(['create', 'create or replace']))]
+        if rng.random() < 0.2:
+            # a modifier between CREATE and the object kind (mysqldump's
+            # DEFINER clause, CONSTRAINT TRIGGER, AGGREGATE FUNCTION, ...)
+            mods = [['definer=`root`@`localhost`'],
+                    [self.kw('definer'), '=', self.kw('current_user')],
+                    [self.kw('definer') + "='admin'@'%'"]]
+            mods += {'trigger': [[self.kw('constraint')]],
+                     'function': [[self.kw('aggregate')],
+                                  [self.kw('temporary')]],
+                     'procedure': [[self.kw('editionable')]]}[what]
+            head += rng.choice(mods)
         head.append(self.kw(what))
         head.append(self.name())
         if what == 'trigger':
